@@ -14,7 +14,10 @@ ID = 'C19'
 TECHNIQUE = ('path-sensitive dataflow (guard dominance with branch-fact refutation) over the dispatch methods of SwitchTransform, one level interprocedural through the '
              'switch-building helper; three-valued evaluation of the extractor\'s type test; must-not-repeat / must-be-guarded dataflow over generate_evaluation_code of the '
              'comparison nodes; interface agreement (arity, categories) between the helper names bound by find_special_bool_compare_function/find_compare_function, the call '
-             'templates that emit them and the C declarations; table comparison of richcmp_constants with the interpreter\'s dis.cmp_op and the Py_LT..Py_GE values of the CPython headers')
+             'templates that emit them and the C declarations; table comparison of richcmp_constants with the interpreter\'s dis.cmp_op and the Py_LT..Py_GE values of the CPython headers; '
+             'field completeness of the syntactic-sameness predicate against the construction sites in the parser + propositional entailment of sameness from the path facts in the condition extractors; '
+             'interval abstract interpretation (sign / compactness / finiteness / magnitude / overflow) of the Tempita int<->float compare helpers with the operator-set placeholders '
+             'evaluated over all six operators (rules/sC19.py)')
 DECIDES = ('(SWITCH) every path from a dispatch method of SwitchTransform to a SwitchStatNode (directly in visit_IfStatNode, through build_simple_switch_statement for the expression '
            'visitors) passed a failing has_duplicate_values test over exactly the case values used, and every case-value list is the non-None result of extract_common_conditions; '
            'extract_common_conditions reports a match only after a test that refutes "switch variable not int/enum" and "some case value not int/enum"; has_duplicate_values answers True '
@@ -26,8 +29,16 @@ DECIDES = ('(SWITCH) every path from a dispatch method of SwitchTransform to a S
            'the comparison nodes emit by name; '
            '(TAB) richcmp_constants maps each comparison operator to the Py_XX constant whose header value is the operator\'s index in dis.cmp_op; c_operator maps is/is_not to ==/!= and leaves C relations unchanged; '
            '(MEMEQ) a transform that replaces `x in <display>` by per-element == / != comparisons builds each comparison with identity-or-equality semantics (an `is` disjunct, or a keyword the '
-           'comparison code generator reads) — FAILS TODAY (known finding K5).')
-NOT_DECIDED = ('outcomes of comparisons in general; find_common_type / coercion lattice for mixed C/Python operands; the Tempita-generated helper bodies (PyObjectCompare, UnicodeEquals_uchar, PyLongCompare); '
+           'comparison code generator reads) — FAILS TODAY (known finding K5); '
+           '(SAME) Optimize.is_common_value answers True for two nodes of an accepted kind only on paths that compared every syntactic field of that kind (the keywords the parser passes at every '
+           'construction site: AttributeNode obj recursively + attribute, NameNode name; or the symbol-table entry for the naming part), and extract_conditions / extract_common_conditions return a '
+           'match only on paths whose branch facts entail `W is None or is_common_value(V, W)` for every other switch-variable candidate W in scope; '
+           '(CMPIV) in __Pyx_PyObject_CompareFloatInt/IntFloat every `return_true if op in ...` answer given without comparing values is, for all six operators, the answer for EVERY pair of '
+           'operands satisfying the path conditions (PyLong_SHIFT 15 and 30, 64-bit long), value-comparing sites keep op1 left, cast integers to double only within +-2**53, and the constant 0.0 '
+           'stands in for the integer only where the float is inf/nan.')
+NOT_DECIDED = ('outcomes of comparisons in general; find_common_type / coercion lattice for mixed C/Python operands; the Tempita-generated helper bodies other than the int<->float ones (CompareIntInt digit loop, bytes/bytearray content comparison, UnicodeEquals_uchar, PyLongCompare) '
+               '- sites of those helpers that depend on an unmodelled condition are listed as info lines; two pending findings keep C19-CMPLEN (bytes ordering of two empty operands) and the '
+               '32-bit-long model of C19-CMPIV out of run(); '
                'evaluation ORDER of the temporaries introduced by FlattenInListTransform (finding 22, claimed by C20/LET-ORDER); that extract_conditions only collects literal/const operands; '
                'I3 is vacuous here (no PythonCapiCallNode site names a compare helper) and is replaced by CMPH.')
 ASSUMPTIONS = ['a C switch is only correct for integer/enum operands without duplicate labels (C standard 6.8.4.2)',
@@ -58,7 +69,26 @@ MUTATIONS = [
     ('Cython/Compiler/ExprNodes.py', "c_operator: 'is_not' -> \"==\"", 'C19-TAB'),
     ('Cython/Compiler/ExprNodes.py', 'CascadedCmpNode: emitted __Pyx_PyObject_IsTrue(%s, 1)', 'C19-I5'),
     ('Cython/Compiler/Optimize.py', 'FlattenInListTransform: (with an `is`/`is_not` PrimaryCmpNode disjunct added per element the rule is silent) remove that disjunct again', 'C19-MEMEQ (fires on the clean tree: known finding K5)'),
+    # C19-SAME / C19-CMPIV (rules/sC19.py), tried on /tmp/strengthen/G4/scr.  Seeds: C19a -> C19-SAME Optimize.is_common_value:is_attribute:obj ; C19b -> C19-CMPIV ...CompareIntFloat:const#4
+    ('Cython/Compiler/Optimize.py', 'is_common_value: drop `and a.attribute == b.attribute`', 'C19-SAME ...is_common_value:is_attribute:name'),
+    ('Cython/Compiler/Optimize.py', 'is_common_value: `is_common_value(a.obj, a.obj)`', 'C19-SAME ...is_common_value:is_attribute:obj'),
+    ('Cython/Compiler/Optimize.py', 'is_common_value: `return a.name == a.name`', 'C19-SAME ...is_common_value:is_name:name'),
+    ('Cython/Compiler/Optimize.py', 'extract_conditions: drop `and is_common_value(t1, t2)` from the BoolBinopNode merge', 'C19-SAME ...SwitchTransform.extract_conditions:t1~t2'),
+    ('Cython/Compiler/Optimize.py', 'extract_common_conditions: `not is_common_value(var, var)`', 'C19-SAME ...extract_common_conditions:var~common_var'),
+    ('Cython/Compiler/Optimize.py', 'extract_common_conditions: `common_var is None and not is_common_value(var, common_var)`', 'C19-SAME ...extract_common_conditions:var~common_var'),
+    ('Cython/Utility/Optimize.c', "CompareFloatInt: `if (sign2 < 0) {{return_true if op in 'NeGeGt' ...}}` -> 'NeLeLt'", 'C19-CMPIV ...CompareFloatInt:const#1'),
+    ('Cython/Utility/Optimize.c', "CompareIntFloat: magnitude test `float_op2 < (double) (1L << PyLong_SHIFT)` -> `(1LL << 53)`", 'C19-CMPIV ...CompareIntFloat:const#2'),
+    ('Cython/Utility/Optimize.c', 'CompareIntFloat: `float_op2 {{c_op}} ((double)iop1)` (operands swapped)', 'C19-CMPIV ...CompareIntFloat:rel#1'),
+    ('Cython/Utility/Optimize.c', 'CompareIntFloat fallback: `(long long) iop1 >= (1LL << 53)` -> `(1LL << 60)` (inexact double conversion)', 'C19-CMPIV ...CompareIntFloat:rel#3'),
+    ('Cython/Utility/Optimize.c', 'CompareIntFloat: `if (unlikely(!isfinite(float_op2)))` -> `if ((0))` (nan reaches the sign shortcuts)', 'C19-CMPIV ...CompareIntFloat:const#3'),
     # behaviour preserving: only the K5 finding remains
+    ('Cython/Compiler/Optimize.py', 'is_common_value: attribute branch as early returns with local aliases `oa, ob = a.obj, b.obj; if not is_common_value(ob, oa): return False; return b.attribute == a.attribute`', 'silent'),
+    ('Cython/Compiler/Optimize.py', 'is_common_value: `return a.entry is b.entry if a.entry is not None else a.name == b.name`', 'silent'),
+    ('Cython/Compiler/Optimize.py', 'extract_common_conditions: De Morgan `elif not (common_var is None or is_common_value(common_var, var))`', 'silent'),
+    ('Cython/Compiler/Optimize.py', 'extract_conditions: the merge test split into nested ifs, arguments of is_common_value swapped', 'silent'),
+    ('Cython/Utility/Optimize.c', "CompareIntFloat: if/else swapped under `!(float_op2 >= 0.)`, `sign1 >= 1`, `0 > sign1`, else-if chain, placeholder sets rewritten ('EqLeLt' false-set, tuple of names)", 'silent'),
+    ('Cython/Utility/Optimize.c', 'CompareIntFloat: locals float_op2 / sign1 / iop1 renamed', 'silent'),
+    ('Cython/Utility/Optimize.c', 'CompareIntFloat: `float_op2 >= 0.` -> `float_op2 > 0.` (zero then takes the other, equally correct, arm)', 'silent'),
     ('Cython/Compiler/Optimize.py', 'visit_CondExprNode: guard split into two ifs with a local `too_few`', 'silent'),
     ('Cython/Compiler/Optimize.py', 'extract_common_conditions: type test rewritten as two ifs, second one `not all(c.type.is_int or c.type.is_enum for c in conditions)`', 'silent'),
     ('Cython/Compiler/ExprNodes.py', 'PrimaryCmpNode.generate_evaluation_code: extra local aliases; richcmp_constants rows reordered; c_operator branches reordered', 'silent'),
